@@ -18,6 +18,8 @@ CONSTANTS Vals,           \* abstract stored values (positive integers)
                           \* system SCOREs (service/scoredb): every path starts with the type part 0x00 array / 0x01 dict / 0x02 var,
                           \* so an array, a dictionary and a variable may all have the SAME name
           BRawId,         \* raw (contract) prefix: "" none | "p" one byte | "adr" a 21-byte contract address
+          Deep,           \* BOOLEAN: the universe also has a dictionary of depth 3 (sub-dictionaries through GetDB with one key,
+                          \* two keys at once, or two chained calls; values written and read through every intermediate handle)
           Snaps,          \* BOOLEAN: a read-only snapshot of the store may be taken (scoredb.NewStateStoreWith / containerdb.
                           \* NewBytesStoreStateWithSnapshot) and containers opened on it: they read the frozen contents, writes fail
           Proj(_)         \* store projection logged after every step (FullProj in generators, NoProj when checking)
@@ -34,7 +36,7 @@ vars == <<store, arr, dict, var, snap, sideal, hist>>
 \* ---- the container universe ---------------------------------------------------------
 a == <<97>>
 Arrays == {"A1", "A2"}
-Dicts == {"D1", "D2"}
+Dicts == IF Deep THEN {"D1", "D2", "D3"} ELSE {"D1", "D2"}
 Vars == {"V1", "V2"}
 Base(c) ==
   IF Universe = "scoredb"
@@ -42,15 +44,20 @@ Base(c) ==
          [] c = "A2" -> <<<<0>>, a \o <<0>>>>        \* scoredb.NewArrayDB(store, "a\0")
          [] c = "D1" -> <<<<1>>, a>>                 \* scoredb.NewDictDB(store, "a", 2)
          [] c = "D2" -> <<<<1>>, <<>>>>              \* scoredb.NewDictDB(store, "", 1)
+         [] c = "D3" -> <<<<1>>, a \o a>>            \* scoredb.NewDictDB(store, "aa", 3)
          [] c = "V1" -> <<<<2>>, a>>                 \* scoredb.NewVarDB(store, "a")
          [] c = "V2" -> <<<<2>>, a, <<0>>>>          \* scoredb.NewVarDB(store, "a", 0)
   ELSE CASE c = "A1" -> <<a>>                 \* array  "a":      size at (a), elements at (a, i)
          [] c = "A2" -> <<a \o <<0>>>>        \* array  "a\0":    collides with A1[0] under plain concatenation
          [] c = "D1" -> <<a>>                 \* dict   "a", depth 2: entries at (a, k1, k2)
          [] c = "D2" -> <<<<>>>>              \* dict   "",  depth 1: entries at ("", k)
+         [] c = "D3" -> <<<<0>>>>             \* dict   "\0", depth 3: entries at ("\0", k1, k2, k3)
          [] c = "V1" -> <<<<>>, <<>>, <<>>>>  \* var at ("", "", "")
          [] c = "V2" -> <<>>                  \* var at the empty path
-DepthOf(d) == IF d = "D1" THEN 2 ELSE 1
+DepthOf(d) == CASE d = "D1" -> 2 [] d = "D2" -> 1 [] d = "D3" -> 3
+\* how a dictionary entry is reached: the sizes of the key groups handed to successive GetDB calls before the final
+\* Get/Set/Delete takes the remaining keys: <<>> direct, <<1>> GetDB(k1), <<2>> GetDB(k1, k2), <<1, 1>> GetDB(k1).GetDB(k2)
+ViaOpts(d) == CASE DepthOf(d) = 1 -> {<<>>} [] DepthOf(d) = 2 -> {<<>>, <<1>>} [] DepthOf(d) = 3 -> {<<>>, <<1>>, <<2>>, <<1, 1>>}
 DKeys == {<<>>, <<0>>}                             \* dictionary keys: "" and 0 (= array index 0 as bytes)
 KeySeqs(n) == [1..n -> DKeys]
 Cap(c) == IF c = "A1" THEN MaxLen ELSE MaxLen - 1
@@ -100,7 +107,7 @@ ArrPut(c, v) ==
      store' = Put(s1, Key(Base(c)), Size(idx + 1))
   /\ arr' = [arr EXCEPT ![c] = Append(@, v)]
   /\ UNCHANGED <<dict, var>>
-  /\ Log(Rec("put", c, 0, <<>>, v, FALSE), "ok", "ok")
+  /\ Log(Rec("put", c, 0, <<>>, v, <<>>), "ok", "ok")
 ArrPop(c) ==
   LET idx == CSize(store, c) IN
   /\ IF idx = 0 THEN UNCHANGED store
@@ -108,7 +115,7 @@ ArrPop(c) ==
           store' = IF idx > 1 THEN Put(s1, Key(Base(c)), Size(idx - 1)) ELSE Del(s1, Key(Base(c)))
   /\ arr' = [arr EXCEPT ![c] = IF @ = <<>> THEN @ ELSE SubSeq(@, 1, Len(@) - 1)]
   /\ UNCHANGED <<dict, var>>
-  /\ Log(Rec("pop", c, 0, <<>>, None, FALSE),
+  /\ Log(Rec("pop", c, 0, <<>>, None, <<>>),
          IF idx = 0 THEN None ELSE GetV(store, EKey(c, idx - 1)),
          IF arr[c] = <<>> THEN None ELSE arr[c][Len(arr[c])])
 ArrSet(c, i, v) ==
@@ -116,13 +123,13 @@ ArrSet(c, i, v) ==
   /\ store' = IF ok THEN Put(store, EKey(c, i), Val(v)) ELSE store
   /\ arr' = IF i < Len(arr[c]) THEN [arr EXCEPT ![c][i + 1] = v] ELSE arr
   /\ UNCHANGED <<dict, var>>
-  /\ Log(Rec("aset", c, i, <<>>, v, FALSE), IF ok THEN "ok" ELSE "error", IF i < Len(arr[c]) THEN "ok" ELSE "error")
+  /\ Log(Rec("aset", c, i, <<>>, v, <<>>), IF ok THEN "ok" ELSE "error", IF i < Len(arr[c]) THEN "ok" ELSE "error")
 ArrGet(c, i) ==
   /\ UNCHANGED <<store, arr, dict, var>>
-  /\ Log(Rec("aget", c, i, <<>>, None, FALSE), GetV(store, EKey(c, i)), IF i < Len(arr[c]) THEN arr[c][i + 1] ELSE None)
+  /\ Log(Rec("aget", c, i, <<>>, None, <<>>), GetV(store, EKey(c, i)), IF i < Len(arr[c]) THEN arr[c][i + 1] ELSE None)
 ArrSize(c) ==
   /\ UNCHANGED <<store, arr, dict, var>>
-  /\ Log(Rec("size", c, 0, <<>>, None, FALSE), CSize(store, c), Len(arr[c]))
+  /\ Log(Rec("size", c, 0, <<>>, None, <<>>), CSize(store, c), Len(arr[c]))
 
 \* ---- DictDB (via = TRUE: through GetDB(k1) for the depth-2 dictionary) ---------------
 DictSet(d, ks, v, via) ==
@@ -141,34 +148,34 @@ DictGet(d, ks, via) ==
 \* wrong number of keys: Set/Delete fail, Get and GetDB return nil, nothing changes
 DictBadArity(d, ks, op) ==
   /\ UNCHANGED <<store, arr, dict, var>>
-  /\ LET r == IF op \in {"dget", "getdb"} THEN None ELSE "error" IN Log(Rec(op, d, 0, ks, 1, FALSE), r, r)
+  /\ LET r == IF op \in {"dget", "getdb"} THEN None ELSE "error" IN Log(Rec(op, d, 0, ks, 1, <<>>), r, r)
 
 \* ---- VarDB --------------------------------------------------------------------------
 VarSet(x, v) ==
   /\ store' = Put(store, Key(Base(x)), Val(v))
   /\ var' = [var EXCEPT ![x] = v]
   /\ UNCHANGED <<arr, dict>>
-  /\ Log(Rec("vset", x, 0, <<>>, v, FALSE), "ok", "ok")
+  /\ Log(Rec("vset", x, 0, <<>>, v, <<>>), "ok", "ok")
 VarDelete(x) ==
   /\ store' = Del(store, Key(Base(x)))
   /\ var' = [var EXCEPT ![x] = None]
   /\ UNCHANGED <<arr, dict>>
-  /\ Log(Rec("vdel", x, 0, <<>>, None, FALSE), GetV(store, Key(Base(x))), var[x])   \* Delete returns the old value
+  /\ Log(Rec("vdel", x, 0, <<>>, None, <<>>), GetV(store, Key(Base(x))), var[x])   \* Delete returns the old value
 VarGet(x) ==
   /\ UNCHANGED <<store, arr, dict, var>>
-  /\ Log(Rec("vget", x, 0, <<>>, None, FALSE), GetV(store, Key(Base(x))), var[x])
+  /\ Log(Rec("vget", x, 0, <<>>, None, <<>>), GetV(store, Key(Base(x))), var[x])
 
 \* ---- read-only snapshot ------------------------------------------------------------
 OnSnap(r) == r @@ [on |-> "snap"]
 Freeze ==
   /\ Snaps /\ snap' = [on |-> TRUE, s |-> store] /\ sideal' = <<arr, dict, var>>
   /\ UNCHANGED <<store, arr, dict, var>>
-  /\ LogOnly(Rec("freeze", "A1", 0, <<>>, None, FALSE), "ok", "ok")     \* (the container name is a dummy)
+  /\ LogOnly(Rec("freeze", "A1", 0, <<>>, None, <<>>), "ok", "ok")     \* (the container name is a dummy)
 \* reads on containers opened on the snapshot see the frozen contents, whatever was written to the live store since
 SnapRead(op, c, i, ks) ==
   /\ snap.on /\ UNCHANGED <<store, arr, dict, var>>
   /\ LET sa == sideal[1] sd == sideal[2] sv == sideal[3] IN
-     Log(OnSnap(Rec(op, c, i, ks, None, FALSE)),
+     Log(OnSnap(Rec(op, c, i, ks, None, <<>>)),
          CASE op = "aget" -> GetV(snap.s, EKey(c, i)) [] op = "size" -> CSize(snap.s, c)
            [] op = "dget" -> GetV(snap.s, Key(Base(c) \o ks)) [] op = "vget" -> GetV(snap.s, Key(Base(c))),
          CASE op = "aget" -> (IF i < Len(sa[c]) THEN sa[c][i + 1] ELSE None) [] op = "size" -> Len(sa[c])
@@ -176,7 +183,7 @@ SnapRead(op, c, i, ks) ==
 \* writes through a snapshot store fail and change nothing (Pop is left out: ArrayDB.Pop panics when the store refuses)
 SnapWrite(op, c, i, ks, v) ==
   /\ snap.on /\ UNCHANGED <<store, arr, dict, var>>
-  /\ Log(OnSnap(Rec(op, c, i, ks, v, FALSE)), "error", "error")
+  /\ Log(OnSnap(Rec(op, c, i, ks, v, <<>>)), "error", "error")
 AnySnapRead == \/ \E c \in Arrays, i \in 0..MaxLen : SnapRead("aget", c, i, <<>>)
                \/ \E c \in Arrays : SnapRead("size", c, 0, <<>>)
                \/ \E d \in Dicts : \E ks \in KeySeqs(DepthOf(d)) : SnapRead("dget", d, 0, ks)
@@ -190,12 +197,9 @@ AnySnapWrite == \/ \E c \in Arrays, v \in Vals : SnapWrite("put", c, 0, <<>>, v)
 
 Can == Len(hist) < MaxOps
 \* (the bound is tested before the arguments are enumerated)
-AnyDictSet == \E d \in Dicts, v \in Vals, via \in BOOLEAN : \E ks \in KeySeqs(DepthOf(d)) :
-                 (via => DepthOf(d) = 2) /\ DictSet(d, ks, v, via)
-AnyDictDelete == \E d \in Dicts, via \in BOOLEAN : \E ks \in KeySeqs(DepthOf(d)) :
-                    (via => DepthOf(d) = 2) /\ DictDelete(d, ks, via)
-AnyDictGet == \E d \in Dicts, via \in BOOLEAN : \E ks \in KeySeqs(DepthOf(d)) :
-                 (via => DepthOf(d) = 2) /\ DictGet(d, ks, via)
+AnyDictSet == \E d \in Dicts, v \in Vals : \E ks \in KeySeqs(DepthOf(d)), via \in ViaOpts(d) : DictSet(d, ks, v, via)
+AnyDictDelete == \E d \in Dicts : \E ks \in KeySeqs(DepthOf(d)), via \in ViaOpts(d) : DictDelete(d, ks, via)
+AnyDictGet == \E d \in Dicts : \E ks \in KeySeqs(DepthOf(d)), via \in ViaOpts(d) : DictGet(d, ks, via)
 AnyDictBadArity == \E d \in Dicts, op \in {"dset", "ddel", "dget", "getdb"} : \E n \in DepthOf(d) - 1 .. DepthOf(d) + 1 :
                       \E ks \in KeySeqs(n) : (IF op = "getdb" THEN n >= DepthOf(d) ELSE n # DepthOf(d)) /\ DictBadArity(d, ks, op)
 Next == \/ Can /\ \E c \in Arrays, v \in Vals : ArrPut(c, v)
@@ -221,7 +225,7 @@ Spec == Init /\ [][Next]_vars
 Paths == {Base(c) : c \in Arrays} \cup {Base(c) \o <<IntPart(i)>> : c \in Arrays, i \in 0..MaxLen}
          \cup UNION {{Base(d) \o ks : ks \in KeySeqs(DepthOf(d))} : d \in Dicts}
          \cup {Base(v) : v \in Vars}
-NPaths == 2 + 2 * (MaxLen + 1) + 4 + 2 + 2
+NPaths == 2 + 2 * (MaxLen + 1) + 4 + 2 + 2 + (IF Deep THEN 8 ELSE 0)
 \* the universe has pairwise distinct paths (otherwise containers alias by design) ...
 PathsDistinct == Cardinality(Paths) = NPaths
 \* ... and distinct paths have distinct storage keys
